@@ -72,6 +72,7 @@ pub fn build_image(seed: u64) -> Result<Image, String> {
         block: *rng.pick(&[64usize, 256, 1024]),
         reuse: rng.chance(1, 2),
         bloom_bits: 10,
+        share: false,
     };
     let db = DB::open(cfg.options(&fs)).map_err(|e| e.to_string())?;
     let space = 24;
